@@ -38,11 +38,13 @@ import (
 
 // Table is the registry of code objects (id = position + 1).
 type Table struct {
-	codes []*CodeRec
-	byPtr map[*py.Code]int
+	codes           []*CodeRec
+	byPtr           map[*py.Code]int
+	byHash          map[[20]byte]int
+	compiledObjects int // before merging identical ones
 }
 
-func newTable() *Table { return &Table{byPtr: map[*py.Code]int{}} }
+func newTable() *Table { return &Table{byPtr: map[*py.Code]int{}, byHash: map[[20]byte]int{}} }
 
 func countLines(s string) int {
 	if s == "" {
@@ -70,36 +72,61 @@ func decode(code string) (st []int, n int) {
 	return
 }
 
+// add registers a code object and, recursively, the code objects among its constants.  Code objects
+// with the same content (bytes, table sizes, kinds of the constants, stacksize, lnotab) are one
+// case: the prelude of the generated programs and most lambdas/comprehensions repeat; the smallest
+// number of source lines among the duplicates is kept (the most demanding bound for the line table).
 func (t *Table) add(c *py.Code, src *Source, parent int, nlines int) int {
 	if id, ok := t.byPtr[c]; ok {
 		return id
 	}
-	r := &CodeRec{Id: len(t.codes) + 1, NConsts: len(c.Consts), NNames: len(c.Names), NVars: len(c.Varnames),
+	t.compiledObjects++
+	r := &CodeRec{NConsts: len(c.Consts), NNames: len(c.Names), NVars: len(c.Varnames),
 		NCells: len(c.Cellvars) + len(c.Freevars), Stacksize: int(c.Stacksize), Firstlineno: int(c.Firstlineno),
 		NLines: nlines, code: c, src: src, parent: parent}
 	r.Bytes = make([]int, len(c.Code))
 	for i := 0; i < len(c.Code); i++ {
 		r.Bytes[i] = int(c.Code[i])
 	}
-	r.St, r.instrs = decode(c.Code)
-	r.KNone = make([]int, len(c.Consts))
+	r.KKind = make([]int, len(c.Consts))
 	for i, k := range c.Consts {
-		if k == py.None {
-			r.KNone[i] = 1
+		switch k.(type) {
+		case py.NoneType:
+			r.KKind[i] = 1
+		case *py.Code:
+			r.KKind[i] = 2
+		case py.String:
+			r.KKind[i] = 3
+		case py.Tuple:
+			r.KKind[i] = 4
 		}
 	}
 	r.Lnotab = make([]int, len(c.Lnotab))
 	for i := 0; i < len(c.Lnotab); i++ {
 		r.Lnotab[i] = int(c.Lnotab[i])
 	}
-	t.codes = append(t.codes, r)
-	t.byPtr[c] = r.Id
+	b, _ := json.Marshal([]interface{}{r.Bytes, r.NConsts, r.KKind, r.NNames, r.NVars, r.NCells, r.Stacksize, r.Lnotab, r.Firstlineno})
+	h := sha1sum(b)
+	id, dup := t.byHash[h]
+	if dup {
+		old := t.codes[id-1]
+		if nlines > 0 && (old.NLines == 0 || nlines < old.NLines) {
+			old.NLines, old.src, old.code = nlines, src, c
+		}
+	} else {
+		r.Id = len(t.codes) + 1
+		r.St, r.instrs = decode(c.Code)
+		t.codes = append(t.codes, r)
+		t.byHash[h] = r.Id
+		id = r.Id
+	}
+	t.byPtr[c] = id
 	for _, k := range c.Consts {
 		if sub, ok := k.(*py.Code); ok {
-			t.add(sub, src, r.Id, nlines)
+			t.add(sub, src, id, nlines)
 		}
 	}
-	return r.Id
+	return id
 }
 
 // idOf returns the id of a code object seen by the VM hook, registering code the corpus did not
@@ -163,6 +190,9 @@ func (r *CodeRec) disasm(pc, around int) []string {
 func opName(op int) string {
 	if op < 0 || op > 255 {
 		return "none"
+	}
+	if op == 90 {
+		return "STORE_NAME" // the generated stringer prints the alias HAVE_ARGUMENT
 	}
 	return vm.OpCode(op).String()
 }
@@ -332,7 +362,7 @@ func main() {
 	}
 	env := common.Setup()
 	rep := common.NewReport(env, "model_checking")
-	rep.Rule = "a case is one code object emitted by the real compiler (distinct by its bytes, table sizes, stacksize and lnotab) whose abstract state space TLC explored under the invariants of spec/C12/PyVMStatic.tla; trivial ones (a single path of at most 4 instructions) are not counted"
+	rep.Rule = "a case is one code object emitted by the real compiler whose abstract state space TLC explored under the invariants of spec/C12/PyVMStatic.tla; two code objects are the same case when bytes, table sizes, kinds of constants, stacksize and lnotab agree; code objects of at most 4 instructions are trivial and not counted"
 	rep.Assumptions = []string{
 		"TLC and the CommunityModules Json/SequencesExt modules are correct",
 		"the per-opcode relation of spec/C12/PyVM.tla states the documented meaning of the Python 3.4 opcodes (it was written without consulting compile/instructions.go:opcodeStackEffect and is itself validated against every instruction the real VM executed in this run)",
@@ -349,7 +379,8 @@ func main() {
 	} else {
 		srcs = append(srcs, repoSources(env)...)
 		srcs = append(srcs, probeSources(env)...)
-		srcs = append(srcs, generate(rng, env.Pick(300, 4000))...)
+		srcs = append(srcs, gridSources(env.Thorough())...)
+		srcs = append(srcs, generate(rng, env.Pick(120, 1500))...)
 	}
 	codes := compileAll(srcs, table, st)
 	nCorpus := len(table.codes)
@@ -373,12 +404,13 @@ func main() {
 	}
 
 	// 3a. run the corpus with the recorder
-	rec := newRecorder(table, env.Pick(600, 4000), env.Pick(3, 6))
+	rec := newRecorder(table, env.Pick(400, 3000), env.Pick(2, 5), int64(env.Pick(70000, 700000)))
 	runAll(env, srcs, codes, rec, st, int64(env.Pick(150000, 600000)))
 	fmt.Printf("phase run done at %.1fs: %d programs run (%d ok, %d exception, %d panic), %d frames, %d instructions, %d traces (%d events), %d code objects found at run time\n",
 		time.Since(env.Start).Seconds(), st.ran, st.ranOK, st.ranExc, st.ranPanic, rec.frames, rec.events, len(rec.traces), rec.tracedEvents, len(table.codes)-nCorpus)
 
 	// 2. static exploration of every code object
+	uncovered := rec.uncovered()
 	for id := range rec.needEmit {
 		table.codes[id-1].Emit = 1
 	}
@@ -413,8 +445,9 @@ func main() {
 		rep.Violation(key, map[string]interface{}{"invariant": v.V, "kind": v.Kind, "code": r.where(), "pc": v.Pc, "opcode": opName(v.Op),
 			"depth": v.Depth, "blocks": v.NBlk, "stacksize": r.Stacksize, "disassembly": r.disasm(v.Pc, 8), "repro": r.repro()})
 	}
+	fmt.Printf("phase static starts at %.1fs\n", time.Since(env.Start).Seconds())
 	sres := runTLC(env, common.TLCRun{Dir: "C12", Module: "PyVMStatic", Config: "static.cfg", Continue: true, Seed: env.Seed,
-		Extra: map[string]string{"codes.ndjson": ndjson(table.codes)}, Timeout: time.Duration(env.Pick(4, 12)) * time.Minute, OnLine: onStatic})
+		Extra: map[string]string{"codes.ndjson": ndjson(table.codes)}, Timeout: time.Duration(env.Pick(12, 40)) * time.Minute, OnLine: onStatic})
 	rep.AddTLC(sres)
 	if !sres.Finished {
 		common.Inconclusive("property=C12 static exploration did not finish\n%s", sres.Stdout)
@@ -426,12 +459,8 @@ func main() {
 		time.Since(env.Start).Seconds(), len(table.codes), sres.Distinct, staticViolations, sres.Wall.Seconds())
 
 	// 3b. every (pc, depth, block depth) reached by frames not traced completely is a reachable model state
-	unpredicted, compared := 0, 0
-	for k := range rec.obs {
-		if !rec.needEmit[int(k.cid)] {
-			continue
-		}
-		compared++
+	unpredicted, compared := 0, len(uncovered)
+	for _, k := range uncovered {
 		if _, ok := predicted[k]; !ok {
 			unpredicted++
 			r := table.codes[k.cid-1]
@@ -476,6 +505,9 @@ func main() {
 			if v.At >= 0 && v.At < len(r.Bytes) {
 				op = r.Bytes[v.At]
 			}
+			if v.Kind == "" {
+				v.Kind = "stacksize"
+			}
 			key := "C12|trace|" + v.V + "|" + v.Kind + "|" + opName(op)
 			lo, hi := v.I-3, v.I+1
 			if lo < 0 {
@@ -489,7 +521,7 @@ func main() {
 		}
 		tres := runTLC(env, common.TLCRun{Dir: "C12", Module: "PyVMTrace", Config: "trace.cfg", Continue: true, Seed: env.Seed,
 			Extra:   map[string]string{"codes.ndjson": ndjson(tcodes), "traces.ndjson": ndjson(rec.traces)},
-			Timeout: time.Duration(env.Pick(4, 12)) * time.Minute, OnLine: onTrace})
+			Timeout: time.Duration(env.Pick(12, 40)) * time.Minute, OnLine: onTrace})
 		rep.AddTLC(tres)
 		if !tres.Finished {
 			common.Inconclusive("property=C12 trace validation did not finish\n%s", tres.Stdout)
@@ -501,8 +533,7 @@ func main() {
 	}
 
 	// evidence
-	distinct := map[[20]byte]bool{}
-	totalInstr, opsSeen := 0, map[int]bool{}
+	totalInstr, opsSeen, nontrivial := 0, map[int]bool{}, 0
 	for _, r := range table.codes {
 		totalInstr += r.instrs
 		for p, s := range r.St {
@@ -510,14 +541,12 @@ func main() {
 				opsSeen[r.Bytes[p]] = true
 			}
 		}
-		if r.instrs <= 4 {
-			continue
+		if r.instrs > 4 {
+			nontrivial++
 		}
-		b, _ := json.Marshal([]interface{}{r.Bytes, r.NConsts, r.KNone, r.NNames, r.NVars, r.NCells, r.Stacksize, r.Lnotab})
-		distinct[sha1sum(b)] = true
 	}
-	rep.Evaluations = int64(len(table.codes))
-	rep.Distinct = int64(len(distinct))
+	rep.Evaluations = int64(table.compiledObjects)
+	rep.Distinct = int64(nontrivial)
 	rep.Traces = int64(len(rec.traces))
 	rep.Exhaustive = false
 	rep.Extra["sources"] = st.sources
@@ -525,7 +554,8 @@ func main() {
 	rep.Extra["sources_rejected_by_compiler"] = st.rejected
 	rep.Extra["compile_panics"] = st.compilePanics
 	rep.Extra["sources_by_class"] = st.byClass
-	rep.Extra["code_objects"] = len(table.codes)
+	rep.Extra["code_objects_compiled"] = table.compiledObjects
+	rep.Extra["code_objects_distinct"] = len(table.codes)
 	rep.Extra["code_objects_found_at_run_time"] = len(table.codes) - nCorpus
 	rep.Extra["instructions_static"] = totalInstr
 	rep.Extra["opcodes_in_corpus"] = len(opsSeen)
@@ -542,9 +572,38 @@ func main() {
 	rep.Extra["reach_observations_unpredicted"] = unpredicted
 	rep.Extra["reach_code_objects"] = len(rec.needEmit)
 	rep.Extra["max_stack_depth_observed"] = rec.maxDepthSeen
-	for i, s := range srcs {
-		if s.Origin == "gen" && i%97 == 0 {
-			rep.Sample(map[string]string{"class": s.Class, "source": s.Text})
+	exits, blockKinds := map[string]int{}, map[string]int{}
+	for _, t := range rec.traces {
+		exits[t.Exit]++
+		for _, e := range t.Ev {
+			for _, bl := range e.Blk {
+				blockKinds[bl.T]++
+			}
+		}
+	}
+	rep.Extra["trace_exits"] = exits
+	rep.Extra["trace_block_observations_by_kind"] = blockKinds
+	for _, s := range srcs {
+		if s.Origin == "gen" && codes[s] != nil {
+			txt := strings.TrimPrefix(s.Text, prelude)
+			if len(txt) > 1500 {
+				txt = txt[:1500] + "..."
+			}
+			rep.Sample(map[string]string{"kind": "generated program (after the common prelude)", "class": s.Class, "source": txt})
+			break
+		}
+	}
+	for _, r := range table.codes {
+		if r.instrs > 30 && r.src != nil && r.src.Origin == "repo" {
+			rep.Sample(map[string]interface{}{"kind": "code object explored by TLC", "code": r.where(), "bytes": len(r.Bytes), "instructions": r.instrs,
+				"stacksize": r.Stacksize, "lnotab": r.Lnotab, "disassembly_head": r.disasm(0, 12)})
+			break
+		}
+	}
+	for _, t := range rec.traces {
+		if len(t.Ev) > 12 && t.Exit == "raised" {
+			rep.Sample(map[string]interface{}{"kind": "frame trace validated by TLC", "code": table.codes[t.gcid-1].where(), "events": len(t.Ev), "exit": t.Exit, "last_events": t.Ev[len(t.Ev)-4:]})
+			break
 		}
 	}
 	rep.Finish()
@@ -558,9 +617,13 @@ func runTLC(env *common.Env, r common.TLCRun) *common.TLCResult {
 			os.WriteFile(filepath.Join(os.Getenv("C12_KEEP"), r.Module+"_"+name), []byte(content), 0o644)
 		}
 	}
+	t0 := time.Now()
 	res, err := env.TLC(r)
 	if err != nil {
 		common.Inconclusive("property=%s %v", env.ID, err)
+	}
+	if os.Getenv("C12_DEBUG") != "" {
+		fmt.Printf("DEBUG env.TLC %s took %.1fs, tlc process %.1fs\n", r.Module, time.Since(t0).Seconds(), res.Wall.Seconds())
 	}
 	for _, e := range res.Errors {
 		if strings.HasPrefix(e, "The behavior up to this point is") || strings.HasPrefix(e, "The following behavior constitutes a counter-example") {
